@@ -1,2 +1,3 @@
 -- Root of the `RactorModel` library: every model, lemma and property module.
+import RactorModel.Extracted
 import RactorModel.Props.C18
